@@ -102,6 +102,8 @@ Lemma mono_openid_required : forall o c, cf_openid_required c = true -> cf_openi
 Lemma dflt_openid_required : forall c, cf_openid_required (set_defaults c) = cf_openid_required c. Proof. dflt_tac. Qed.
 Lemma mono_resource_required : forall o c, cf_resource_required c = true -> cf_resource_required (apply_opt o c) = true. Proof. mono_tac. Qed.
 Lemma dflt_resource_required : forall c, cf_resource_required (set_defaults c) = cf_resource_required c. Proof. dflt_tac. Qed.
+Lemma mono_resource_enabled : forall o c, cf_resource_enabled c = true -> cf_resource_enabled (apply_opt o c) = true. Proof. mono_tac. Qed.
+Lemma dflt_resource_enabled : forall c, cf_resource_enabled (set_defaults c) = cf_resource_enabled c. Proof. dflt_tac. Qed.
 Lemma mono_jwt_bearer_authn : forall o c, cf_jwt_bearer_authn_required c = true -> cf_jwt_bearer_authn_required (apply_opt o c) = true. Proof. mono_tac. Qed.
 Lemma dflt_jwt_bearer_authn : forall c, cf_jwt_bearer_authn_required (set_defaults c) = cf_jwt_bearer_authn_required c. Proof. dflt_tac. Qed.
 Lemma mono_introspection : forall o c, cf_introspection c = true -> cf_introspection (apply_opt o c) = true. Proof. mono_tac. Qed.
